@@ -47,6 +47,8 @@ def main():
     crate_dir = os.path.dirname(os.path.dirname(demo_name))
     test_name = os.path.splitext(os.path.basename(demo_name))[0]
     feat = " --all-features" if crate_dir == wt else ""
+    if "SEED_DEMO_FLAGS" in os.environ:
+        feat = " " + os.environ["SEED_DEMO_FLAGS"] if os.environ["SEED_DEMO_FLAGS"] else ""
     cmd_demo = f"cargo test --offline{feat} --test {test_name}"
     rc0, out0 = sh(cmd_demo, cwd=crate_dir)
     ran.append(f"[clean] {cmd_demo} -> rc {rc0}")
